@@ -12,7 +12,7 @@ from ..common import take, codes
 ID = "C15"
 LEVEL = "exploration"
 RULE = ("Cases: (a) 'reorder': an arrival order that is a permutation of 0..n-1 with a drain mask (Buffer drained fully at chosen "
-        "points, one long-lived iterator resumed after further insertions, PrintBuffer printing), checked after every arrival "
+        "points, one long-lived iterator resumed after further insertions, PrintBuffer printing; payloads include falsy ones: '', ' ', '0', None, 0, [], False), checked after every arrival "
         "against the longest-complete-prefix definition (emitted sequence, waiting_for, len); (b) 'script': histories mixing "
         "arrivals with the documented extras: overwrite before emission, AttributeError for an emitted position, Buffer.flush, "
         "PrintBuffer.flush (also when empty / right after construction / after a complete run), PrintBuffer.clear, custom end; "
@@ -47,6 +47,17 @@ def g(ctx, what, fn, allowed=()):
 def run_reorder(case, ctx):
     perm, mask, end = case["perm"], case["mask"], case.get("end", "\n")
     n = len(perm)
+    vk = case.get("vals") or [1]
+
+    def sval(j):
+        """value of serial j for PrintBuffer (a string; empty and blank strings are legitimate values)"""
+        return ["", "v%d" % j, "0", " "][vk[j % len(vk)] % 4]
+
+    def bval(j):
+        """payload of serial j for Buffer (any object; falsy payloads are legitimate)"""
+        return [None, "v%d" % j, 0, "", [], False][vk[j % len(vk)] % 6]
+    if any(not sval(j) for j in range(n)):
+        ctx.label("falsy-values")
     b = Buffer()
     b2 = Buffer()
     it2 = None  # long-lived iterator over b2, resumed after further insertions
@@ -56,8 +67,8 @@ def run_reorder(case, ctx):
     pb = PrintBuffer(sio, end=end)
     for step, i in enumerate(perm):
         d = bool(mask[step % len(mask)]) if mask else False
-        g(ctx, "Buffer/insert", lambda: b(i, "v%d" % i))
-        g(ctx, "Buffer/insert", lambda: b2(i, "v%d" % i))
+        g(ctx, "Buffer/insert", lambda: b(i, bval(i)))
+        g(ctx, "Buffer/insert", lambda: b2(i, bval(i)))
         k_before = 0
         while k_before in arrived:
             k_before += 1
@@ -68,7 +79,7 @@ def run_reorder(case, ctx):
         if d:
             got = g(ctx, "Buffer/drain", lambda: take(b, n + 2))
             out.extend(got)
-            ctx.need(out == ["v%d" % j for j in range(k)], "Buffer/drain/not-the-complete-prefix",
+            ctx.need(out == [bval(j) for j in range(k)], "Buffer/drain/not-the-complete-prefix",
                      lambda: "after arrivals %r a full drain emitted %r in total, complete prefix is 0..%d" % (perm[:step + 1], out, k - 1))
             # second buffer: one long-lived iterator, advanced by a single item per drain point and resumed after
             # further insertions (a finished generator is replaced by a fresh one)
@@ -79,7 +90,7 @@ def run_reorder(case, ctx):
                 it2 = None
             else:
                 out2.append(item)
-            ctx.need(out2 == ["v%d" % j for j in range(len(out2))] and len(out2) <= k, "Buffer/resumed-iterator/wrong",
+            ctx.need(out2 == [bval(j) for j in range(len(out2))] and len(out2) <= k, "Buffer/resumed-iterator/wrong",
                      lambda: "partially consumed iterator emitted %r, complete prefix is 0..%d" % (out2, k - 1))
             w2 = g(ctx, "Buffer/waiting_for", lambda: b2.waiting_for())
             ctx.need(w2 in (len(out2), len(out2) - 1), "Buffer/resumed-iterator/waiting_for", lambda: "waiting_for=%r after emitting %d" % (w2, len(out2)))
@@ -87,18 +98,18 @@ def run_reorder(case, ctx):
         ln = g(ctx, "Buffer/len", lambda: len(b))
         ctx.need(w == len(out), "Buffer/waiting_for/wrong", lambda: "waiting_for=%r, emitted %d" % (w, len(out)))
         ctx.need(ln == len(arrived) - len(out), "Buffer/len/wrong", lambda: "len=%r, held back %d" % (ln, len(arrived) - len(out)))
-        r = g(ctx, "PrintBuffer/print", lambda: pb.print(i, "v%d" % i))
+        r = g(ctx, "PrintBuffer/print", lambda: pb.print(i, sval(i)))
         ctx.need(pb.waiting_for == k, "PrintBuffer/waiting_for/wrong", lambda: "waiting_for=%r expected %d" % (pb.waiting_for, k))
         ctx.need(len(pb) == len(arrived) - k, "PrintBuffer/len/wrong", lambda: "len=%r expected %d" % (len(pb), len(arrived) - k))
-        exp = "".join("v%d%s" % (j, end) for j in range(k))
+        exp = "".join(sval(j) + end for j in range(k))
         ctx.need(sio.getvalue() == exp, "PrintBuffer/print/output-wrong", lambda: "printed %r expected %r" % (sio.getvalue(), exp))
         ctx.need(bool(r) == (i == k_before), "PrintBuffer/print/return-value", lambda: "print(%d) returned %r while waiting for %d" % (i, r, k_before))
     rest = g(ctx, "Buffer/resumed-iterator", lambda: (take(it2, n + 2) if it2 is not None else []) + take(b2, n + 2))
     out2.extend(rest)
-    ctx.need(out2 == ["v%d" % j for j in range(n)], "Buffer/resumed-iterator/final-sequence-wrong", lambda: "emitted %r for arrivals %r" % (out2, perm))
+    ctx.need(out2 == [bval(j) for j in range(n)], "Buffer/resumed-iterator/final-sequence-wrong", lambda: "emitted %r for arrivals %r" % (out2, perm))
     got = g(ctx, "Buffer/drain", lambda: take(b, n + 2))
     out.extend(got)
-    ctx.need(out == ["v%d" % j for j in range(n)], "Buffer/drain/final-sequence-wrong", lambda: "emitted %r for arrivals %r" % (out, perm))
+    ctx.need(out == [bval(j) for j in range(n)], "Buffer/drain/final-sequence-wrong", lambda: "emitted %r for arrivals %r" % (out, perm))
     ctx.need(len(b) == 0 and b.waiting_for() == n, "Buffer/final-state/wrong", "buffer not empty / waiting_for wrong at the end")
     if perm != sorted(perm) and mask and any(mask[s % len(mask)] for s in range(max(0, n - 1))):
         ctx.nontrivial = True
@@ -120,7 +131,7 @@ def run_script(case, ctx):
         if k == "put":
             i = o[1]
             ver += 1
-            val = "v%d.%d" % (i, ver)
+            val = "" if (case.get("empty_every") and ver % case["empty_every"] == 0) else "v%d.%d" % (i, ver)
             # Buffer
             if i < bm["w"]:
                 try:
@@ -239,6 +250,9 @@ def enum_perms(nmax):
             for perm in itertools.permutations(range(n)):
                 for mask in itertools.product((0, 1), repeat=n):
                     yield {"kind": "reorder", "perm": list(perm), "mask": list(mask), "end": "\n"}
+                    if n <= 5:
+                        # the same arrivals with falsy payloads ("" / None / 0) at even serial numbers
+                        yield {"kind": "reorder", "perm": list(perm), "mask": list(mask), "end": "\n", "vals": [0, 1]}
     return gen
 
 
@@ -270,8 +284,9 @@ def strategies(tier):
     big = tier == "thorough"
     perm = st.integers(0, 40).flatmap(lambda n: st.permutations(list(range(n))))
     reorder = st.fixed_dictionaries({"kind": st.just("reorder"), "perm": perm, "mask": st.lists(st.integers(0, 1), min_size=1, max_size=12),
+                                     "vals": st.one_of(st.just([1]), st.lists(st.integers(0, 5), min_size=1, max_size=5)),
                                      "end": st.sampled_from(["\n", "", "|", "\r\n"])})
-    script = st.fixed_dictionaries({"kind": st.just("script"), "end": st.sampled_from(["\n", "", ";"]),
+    script = st.fixed_dictionaries({"kind": st.just("script"), "end": st.sampled_from(["\n", "", ";"]), "empty_every": st.sampled_from([0, 0, 2, 3]),
                                     "ops": st.one_of(codes(0, 6), codes(6, 30)).map(lambda cs: [dec_script(c) for c in cs])})
     ring = st.fixed_dictionaries({"kind": st.just("ring"), "cap": st.integers(1, 6),
                                   "ops": st.lists(st.one_of(st.integers(0, 99), st.integers(0, 99), st.integers(0, 99), st.none()), max_size=60)})
